@@ -12,6 +12,11 @@
 //
 // A panic is recorded as "panic:<kind>".  The buffer handed to the mbits functions starts at an
 // 8-byte-aligned address, so off mod 8 is the alignment of the slice.
+//
+// Every case runs under a watchdog: a call that does not return within it is recorded as "hang"
+// (no model output and no clause of the property accepts that).  The abandoned goroutine keeps
+// spinning, so after three hangs of one kind of case (or six in all) the remaining cases of that
+// kind are not run and are recorded as "hang-skipped".
 package main
 
 import (
@@ -20,6 +25,7 @@ import (
 	"os"
 	"strconv"
 	"strings"
+	"time"
 	"unsafe"
 
 	"github.com/creachadair/mds/mbits"
@@ -91,7 +97,52 @@ func mbitsCase(op string, off, n int, mem string) string {
 	return strconv.Itoa(ret)
 }
 
+// ---- watchdog
+
+const watchdog = 2 * time.Second
+
+var (
+	hangs    = map[string]int{}
+	spinning int
+	wdTimer  = time.NewTimer(time.Hour)
+)
+
+// exec runs one case under the watchdog.
 func exec(in string) string {
+	kind := in
+	if i := strings.IndexAny(in, " _"); i >= 0 {
+		kind = in[:i]
+	}
+	if hangs[kind] >= 3 || spinning >= 6 {
+		return "hang-skipped"
+	}
+	done := make(chan string, 1)
+	go func() {
+		defer func() {
+			if r := recover(); r != nil {
+				done <- "panic:" + tr.PanicKind(r)
+			}
+		}()
+		done <- execRaw(in)
+	}()
+	if !wdTimer.Stop() {
+		select {
+		case <-wdTimer.C:
+		default:
+		}
+	}
+	wdTimer.Reset(watchdog)
+	select {
+	case s := <-done:
+		return s
+	case <-wdTimer.C:
+		hangs[kind]++
+		spinning++
+		return "hang"
+	}
+}
+
+func execRaw(in string) string {
 	f := strings.Fields(strings.ReplaceAll(in, "_", " ")) // supporting runs print inputs with _ for blanks
 	switch f[0] {
 	case "Z", "L", "T":
